@@ -277,6 +277,17 @@ func checkC08Build(c *c08Case, r *vstat.Run) (outcome, *gram.Built) {
 	case !lr && err != nil:
 		return violationf("build", "Build failed for another reason: %v\n%s", err, c.G.String()), nil
 	}
+	// the same grammar with the root union itself as the grammar type
+	var uerr error
+	if pm := guard(func() { uerr = gram.BuildUnionRoot(c.G) }); pm != "" {
+		return violationf("panic", "Build[U0] %s\n%s", pm, c.G.String()), nil
+	}
+	if lr && uerr == nil {
+		return violationf("F13-left-recursion-missed", "Build accepted, with the root union as the grammar type, a grammar in which P%d re-enters itself before consuming a token\n%s", witness, c.G.String()), nil
+	}
+	if !lr && uerr != nil {
+		return violationf("build", "Build with the root union as the grammar type failed: %v\n%s", uerr, c.G.String()), nil
+	}
 	if lr {
 		return outcome{}, nil
 	}
